@@ -55,6 +55,12 @@ func TestC20_Engine(t *testing.T) {
 		if rapid.IntRange(0, 7).Draw(t, "hostile-k") == 0 {
 			q += " kill Kelvin ok"
 		}
+		if rapid.IntRange(0, 5).Draw(t, "context-clue") == 0 {
+			// phrases the NLP stage looks for as substrings of the raw query text
+			q = rapid.SampledFrom([]string{"preview", "reading", "looking", "overview", "outlook", "thread", "seeking", "displayed", "show", "see"}).Draw(t, "view-word") + " " + q + " " +
+				rapid.SampledFrom([]string{"without opening", "without editing", "without opening it", "not opening"}).Draw(t, "clue")
+			qc = "context-clue"
+		}
 		q2, nonASCII := respell(t, q)
 		opt := gen.Options(t, gen.OptSpec{N: len(cmds)})
 		a := rank(db, db.SearchUniversal(q, opt))
